@@ -160,3 +160,11 @@ Definition path_hash (l : list seg) : list hword := flat_map seg_hash l.
 
 (* hop count *)
 Definition hop_count (l : list hop) : nat := length l.
+
+(* HopPath::hop_count_path_selection: ASNs and AS_SETs (type 1) count one, confederation segments zero *)
+Fixpoint hop_count_path_selection (l : list hop) : nat :=
+  match l with
+  | [] => 0
+  | HAsn _ :: tl => S (hop_count_path_selection tl)
+  | HSeg t _ :: tl => if t =? 1 then S (hop_count_path_selection tl) else hop_count_path_selection tl
+  end.
